@@ -215,6 +215,9 @@ def run(ctx, prog):
         axv = astutil.const_value_(ax) if ax is not None else None
         if len(ptxt) == 2 and ptxt[0] == 'self.convergence_traces' and ptxt[1] in NEWLAST and isinstance(axv, int):
             ctx.check(axv == -1, 'C08-D1', f'{cc.key}::append', f'the new scores are appended along axis {axv}, not as a new last column', 'appends self.scores[..., None] on the last axis', cc.where())
+        elif len(ptxt) == 2 and ptxt[0] == 'self.convergence_traces' and any(ptxt[1].startswith(x + '.astype(') for x in NEWLAST + ('self.scores',)):
+            ctx.fail('C08-D1', f'{cc.key}::append', f'the column appended is `{ptxt[1][:70]}`: the scores converted to another dtype, not the scores - a column no longer equals the fresh prefix scores '
+                     '(float64 scores rounded to a float32 precision, truncated to an integer precision)', cc.where())
         elif len(ptxt) == 2 and ptxt[0] in NEWLAST and ptxt[1] == 'self.convergence_traces':
             ctx.fail('C08-D1', f'{cc.key}::append', 'the new scores are put in front of the existing columns: the columns are not in processing order', cc.where())
         else:
